@@ -59,8 +59,10 @@ def parseVocab (name : String) (q : List Int) (p : List (CS α)) : Option (Vocab
   | "rx", [a], [x] => some (.rx a x) | "ry", [a], [x] => some (.ry a x) | "rz", [a], [x] => some (.rz a x)
   | "u3", [a], [x, y, z] => some (.u3 a x y z)
   | "rzz", [a, b], [x] => some (.rzz a b x)
-  | "crx", [a, b], [x] => some (.crx a b x) | "cry", [a, b], [x] => some (.cry a b x) | "crz", [a, b], [x] => some (.crz a b x)
-  | "cu3", [a, b], [x, y, z] => some (.cu3 a b x y z)
+  | "crx", a :: b :: r, [x] => some (.crx (a :: b :: r).dropLast ((a :: b :: r).getLast?.getD 0) x)
+  | "cry", a :: b :: r, [x] => some (.cry (a :: b :: r).dropLast ((a :: b :: r).getLast?.getD 0) x)
+  | "crz", a :: b :: r, [x] => some (.crz (a :: b :: r).dropLast ((a :: b :: r).getLast?.getD 0) x)
+  | "cu3", a :: b :: r, [x, y, z] => some (.cu3 (a :: b :: r).dropLast ((a :: b :: r).getLast?.getD 0) x y z)
   | _, _, _ => none
 
 /-- the constants / constructors of `numqi.gate` by name -/
@@ -87,37 +89,44 @@ def dgateArray (car : Carrier α) (name : String) (κ : α) (p : List (CS α)) :
 def dgateRaw (car : Carrier α) (name : String) (q : List Int) (κ : α) (p : List (CS α)) : Option (RawOp α) :=
   if name.startsWith "c" then
     match q with
-    | [c, t] => (dgateArray car (name.drop 1).toString κ p).map fun a => .control a [c] [t]
+    | a :: b :: r => (dgateArray car (name.drop 1).toString κ p).map fun arr =>
+        .control arr (a :: b :: r).dropLast [(a :: b :: r).getLast?.getD 0]
     | _ => none
   else (dgateArray car name κ p).map fun a => .unitary a q
 
-/-- one program step: `u:<t>:<U>`, `c:<c>:<t>:<U>`, `m:<s>:<bits>`, `x:<U>`, `s:<delta>` (shift everything so far),
-`v:<name>:<qubits>:<pairs>` (a method of the gate vocabulary, read through `Vocab.toRaw`) -/
-inductive Step (α : Type) where
-  | op (g : RawOp α)
-  | shift (δ : Int)
-
-def parseStep (car : Carrier α) (s : String) : Option (Step α) :=
+/-- one basic program step: `u:<t>:<U>`, `c:<c>:<t>:<U>`, `m:<s>:<bits>`, `x:<U>` (entries appended as they are),
+`v:<name>:<qubits>:<pairs>` (a named gate method, read through `Vocab.toRaw`), `dv:…` (derivative entry), `s:<delta>`
+(`shift_qubit_index_`), `n` (an entry `apply_state` refuses) -/
+def parseStep0 (car : Carrier α) (s : String) : Option (Stmt0 α) :=
   match s.splitOn ":" with
-  | ["u", t, u] => do let t ← parseIdx? t; let u ← parseArr car u; pure (.op (.unitary u t))
+  | ["u", t, u] => do let t ← parseIdx? t; let u ← parseArr car u; pure (.gate (.unitary u t))
   | ["c", c, t, u] => do
-      let c ← parseIdx? c; let t ← parseIdx? t; let u ← parseArr car u; pure (.op (.control u c t))
-  | ["m", sq, b] => do let sq ← parseIdx? sq; let b ← parseBits? b; pure (.op (.measure sq b))
-  | ["x", u] => do let u ← parseArr car u; pure (.op (.custom u))
+      let c ← parseIdx? c; let t ← parseIdx? t; let u ← parseArr car u; pure (.gate (.control u c t))
+  | ["m", sq, b] => do let sq ← parseIdx? sq; let b ← parseBits? b; pure (.gate (.measure sq b))
+  | ["x", u] => do let u ← parseArr car u; pure (.gate (.custom u))
   | ["s", d] => do let d ← d.toInt?; pure (.shift d)
+  | ["n"] => some .unsupported
   | ["dv", name, q, k, p] => do
-      let q ← parseIdx? q; let k ← car.parse k; let p ← parsePairs car p; let g ← dgateRaw car name q k p; pure (.op g)
+      let q ← parseIdx? q; let k ← car.parse k; let p ← parsePairs car p; let g ← dgateRaw car name q k p; pure (.gate g)
   | ["v", name, q, p] => do
-      let q ← parseIdx? q; let p ← parsePairs car p; let v ← parseVocab name q p; pure (.op (v.toRaw car.I))
+      let q ← parseIdx? q; let p ← parsePairs car p; let v ← parseVocab name q p; pure (.call v)
   | _ => none
 
-/-- run the program text: gate appends, and in-place shifts of everything appended so far -/
+/-- a program step: a basic one, or `e:<step>!<step>!…` = `extend_circuit` of the circuit built by those basic steps -/
+def parseStep (car : Carrier α) (s : String) : Option (Stmt α) :=
+  if s.startsWith "e:" then
+    let body := (s.drop 2).toString
+    if body = "" then some (.extend []) else ((body.splitOn "!").mapM (parseStep0 car)).map .extend
+  else (parseStep0 car s).map .base
+
+/-- parse the program text and run it with the model's `runProg`: the content of `gate_index_list`;
+outer `none` = malformed text, inner `none` = the circuit holds an entry `apply_state` refuses -/
 def parseProg (car : Carrier α) (s : String) : Option (List (RawOp α)) :=
   if s = "-" then some [] else do
     let steps ← (s.splitOn "|").mapM (parseStep car)
-    pure (steps.foldl (fun acc st => match st with
-      | .op g => acc ++ [g]
-      | .shift δ => acc.map (RawOp.shift δ)) [])
+    match runProg car.I steps with
+    | some l => pure l
+    | none => pure [RawOp.unitary #[] []]     -- an entry no register accepts: every consumer answers `error`
 
 def log2? (len : Nat) : Option Nat := (List.range 16).find? fun n => 2 ^ n == len
 
@@ -225,6 +234,11 @@ def handleR (car : Carrier α) (args : List String) : String :=
         | .control _ c t => s!"c:{f c}:{f t}"
         | .measure sq _ => s!"m:{f sq}"
         | .custom _ => "x")
+  | ["width", prog] => Id.run do
+      -- `Circuit.num_qubit` of the program (measure entries count, custom entries do not)
+      let some prog := parseProg car prog | return "bad-op"
+      if prog.isEmpty then return "error"
+      return toString (numQubit prog)
   | ["unitary", prog] => Id.run do
       let some prog := parseProg car prog | return "bad-op"
       if prog.isEmpty || prog.any RawOp.isMeasure then return "error"
